@@ -392,6 +392,12 @@ func (s *Splitter) Next() (*Item, error) {
 		return nil, fmt.Errorf("stream ended inside a start tag: %w", err)
 	}
 	selfClosing := s.buf[k-1] == '/'
+	restart := s.depth == 1 && !s.Framed && bytes.HasPrefix(s.buf, []byte("<stream:stream")) && k > 14 && (s.buf[14] == ' ' || s.buf[14] == '>' || s.buf[14] == '\n' || s.buf[14] == '\t')
+	if restart {
+		// a new stream header on the same connection: stream restart
+		s.depth = 0
+		s.Scope = map[string]string{}
+	}
 	if s.depth == 0 && !s.Framed {
 		raw := s.consume(k + 1)
 		s.depth = 1
